@@ -15,10 +15,13 @@ REPLAYS = os.path.join(ROOT, "replays")
 SCHEMA = "/root/.vp/EVIDENCE.schema.json"
 
 SCRIPT = '''# stand-alone reproduction (parglare API only); run with /venv/bin/python
-import json, sys
+import json, signal, sys
+signal.alarm(30)       # printing a cyclic forest does not terminate
 from parglare import Grammar, Parser, GLRParser, SLR, LALR
 case = json.loads({case!r})
 opts = dict(case.get("options", {{}}))
+if opts.get("dynamic_filter") == "accept_all":
+    opts["dynamic_filter"] = lambda ctx, fs, ts, action, prod, subs: None if action is None else True
 if "tables" in opts: opts["tables"] = {{"SLR": SLR, "LALR": LALR}}[opts["tables"]]
 g = Grammar.from_string(case["grammar"])
 p = (GLRParser if case.get("parser", "glr") == "glr" else Parser)(g, **opts)
@@ -41,7 +44,7 @@ def write_replay(prop, v):
     case = v["case"]
     if isinstance(case, dict) and "grammar" in case and "input" in case \
             and isinstance(case.get("input"), str) and "script" not in rec:
-        rec["script"] = SCRIPT.format(case=json.dumps(case),
+        rec["script"] = SCRIPT.format(case=json.dumps(case, default=str),
                                       expect=v.get("what", ""))
     with open(path, "w") as f:
         json.dump(rec, f, indent=1, default=str)
